@@ -68,8 +68,9 @@ def procs_jobs(only, mixes, nq, nt, san_mix=None, crowd_mix=None, sweep_mixes=No
     jobs.append(J("procs", "san", max(2000, nq // 12), nt // 12, cfg=san_mix or mixes[-1], only=only))
     # single-fault sweep: for each sampled fault-free base program, every (blocking call x instant in its window x fault kind x priority side)
     sw = sweep_mixes if sweep_mixes is not None else [m.split(",faults")[0] for m in mixes[:2]]
-    for m in dict.fromkeys(sw):
-        jobs.append(J("procs", "rel", 250, 12000, cfg=m, only=only, sweep=True))
+    sw = list(dict.fromkeys(sw))
+    for m in sw:
+        jobs.append(J("procs", "rel", max(60, 480 // len(sw)), 24000 // len(sw), cfg=m, only=only, sweep=True))
     return jobs
 
 JOBS.update({
